@@ -1,7 +1,7 @@
 #!/venv/bin/python
 """Create one scratch worktree of /repo per property plus the prompt given to a fresh sub-agent (property text only).
 
-usage: tools/mk_mutant_prompts.py <dir outside /repo and /verif, e.g. /tmp/wt4> [hint-set 0|1]
+usage: tools/mk_mutant_prompts.py <dir outside /repo and /verif, e.g. /tmp/wt4> [hint-set 0|1|2]
 The sub-agent gets: the property's title/statement/quantifier and its own worktree - nothing from /verif.
 Afterwards: tools/seed_mutant.py Cxx a|b <dir>/Cxx/_out <store letter>, then `git -C /repo worktree remove --force <dir>/Cxx`.
 """
@@ -35,7 +35,24 @@ HINTS = ['''       - a code path that only ONE entry point takes (closest, filte
          attributes, attribute names with prefixes, namespace declarations that change mid-tree;
        - documents with more than one top-level node, text or comments or a doctype before the root, an iframe
          whose content is a whole nested document, elements after </html>;
-       - a behaviour that only shows on the SECOND element/alternative/call because the first one warms something.''']
+       - a behaviour that only shows on the SECOND element/alternative/call because the first one warms something.''',
+         '''       - the way the object under test is obtained or passed: a pattern that is a str subclass or an already
+         compiled object handed to select()/match()/compile(), a Tag subclass, a soup made with
+         multi_valued_attributes=None or a custom element_classes map, copy.copy(tag), soup.new_tag() never attached,
+         an element moved from one soup to another, iterables given to filter() (generators, lists with non-Tag
+         nodes), results of iselect() consumed partly, limit= combined with several alternatives;
+       - scale: hundreds of nesting levels or thousands of siblings, a cache that reaches its bound and evicts
+         (the compile cache holds 500 entries), the 513th distinct string, values of hundreds of characters;
+       - evaluation order inside ONE selector: right-to-left matching across combinators, a compound that is tried
+         on an ancestor AFTER it failed on a nearer one, :has() inside :not() inside :is(), sibling combinators
+         whose left side is a list, the same pseudo-class twice in one compound, `of S` whose S uses :has();
+       - document facts that sit somewhere unusual: <base>/<meta> not in <head>, two <head> or <body> elements,
+         `lang`/`dir`/`xml:lang` on the root only or on an iframe, forms inside tables (parsers move them), <template>,
+         <select> with nested optgroups, attributes given twice with different case, entity references in values;
+       - text-level corners of the grammar: a comment or escape directly against an unusual neighbour token
+         (`|`, `*`, `&`, `::`, `@`, `!=`), CRLF inside strings, NUL and surrogates, `--` and `-` prefixes, numbers
+         with signs and leading zeros, upper-case keywords, nothing but white space;
+       - anything where the library trusts an invariant of its input that a mutant can quietly stop maintaining.''']
 
 TMPL = '''You are helping test a verification tool by playing the role of a careless-but-plausible developer.
 
